@@ -43,6 +43,9 @@ class Var2h(Family):
                         if n == 4 and nvalh == 4:
                             continue
                         out.append(dict(nobs=n, period=P, rainfall=rain, nvalh=nvalh))
+        if tier == 'quick':
+            # the smallest shape in which two observations can share a time stamp strictly inside an integrated period
+            out += [dict(nobs=4, period=3600, rainfall=1, nvalh=2), dict(nobs=4, period=3600, rainfall=0, nvalh=2)]
         return out
 
     def cost(self, inst):
@@ -130,14 +133,61 @@ class Var2h(Family):
         return res
 
 
+def wrapper_var2h(tier):
+    """dutils.var2h hands the kernel the wall-clock epoch seconds of the index whatever its storage resolution (s/ms/us/ns) and time zone,
+    the first whole hour after the first stamp as origin, nvalh = int(span/period) and a NaN-filled output of that length"""
+    import numpy as np
+    import pandas as pd
+    from hydrodiy.data import dutils as D
+    from engine.contracts import Recorder, patched_module
+    out = []
+    stamps = ['2001-03-04 05:10:00', '2001-03-04 06:40:30', '2001-03-04 09:00:00', '2001-03-04 11:59:59']
+    want = [int((pd.Timestamp(t) - pd.Timestamp('1970-01-01')).total_seconds()) for t in stamps]
+    hstart = int((pd.Timestamp('2001-03-04 06:00:00') - pd.Timestamp('1970-01-01')).total_seconds())
+    vals = [1.0, 2.0, np.nan, 4.0]
+    for unit in ('ns', 'us', 'ms', 's'):
+        for tz in (None, 'Australia/Brisbane', 'UTC', 'America/Lima'):
+            idx = pd.DatetimeIndex(stamps).as_unit(unit)
+            if tz is not None:
+                idx = idx.tz_localize(tz)
+            se = pd.Series(vals, index=idx)
+            for period in (3600, 1800):
+                rec = Recorder()
+                with patched_module(D, 'c_hydrodiy_data', rec):
+                    try:
+                        res = D.var2h(se, nbsec_per_period=period, maxgapsec=7200, rainfall=True)
+                    except Exception as e:
+                        out.append(('wrapper-runs', False, dict(unit=unit, tz=tz, period=period, error=repr(e))))
+                        continue
+                c = rec.calls[-1]
+                tag = dict(unit=unit, tz=tz, period=period)
+                span = want[-1] - want[0]
+                out.append(('time-stamps-in-wall-clock-seconds', list(map(int, c.args[5])) == want, dict(tag, got=list(map(int, c.args[5]))[:2], want=want[:2])))
+                out.append(('origin=first-whole-hour-after-first-stamp', int(c.args[1]) == hstart, dict(tag, got=int(c.args[1]), want=hstart)))
+                out.append(('scalars', int(c.args[0]) == 7200 and int(c.args[2]) == period and int(c.args[3]) == 1, tag))
+                out.append(('values-passed', np.array_equal(c.args[6], np.array(vals), equal_nan=True), tag))
+                out.append(('output-length=int(span/period)-filled-with-nan', len(c.args[7]) == span // period and bool(np.all(np.isnan(c.args[7]))), dict(tag, got=len(c.args[7]))))
+                out.append(('result-index', len(res) == span // period and res.index[0] == pd.Timestamp('2001-03-04 06:00:00'), tag))
+    return out
+
+
+CONTRACTS = [wrapper_var2h]
+
+
+def contracts_part(tier, seed, workdir):
+    from engine.contracts import run_contracts
+    return run_contracts('C14', 'harness.C14', CONTRACTS, tier)
+
+
 FAMILIES = [Var2h()]
+PARTS = [contracts_part]
 
 META = dict(
     explanation='bounded symbolic execution of the LLVM IR of c_var2h with SYMBOLIC INTEGER time stamps (arbitrary spacing, duplicates, stamps on '
                 'period boundaries are feasible valuations), symbolic values (non-negative, negative or NaN) and maxgapsec, hstartsec/nvalh tied to '
                 'the stamps as dutils.var2h computes them; each feasible path is compared with an independent closed-form integral of the '
                 'piecewise-linear interpolant (rainfall: increments prorated by overlap) and with the missing-period rule',
-    bounds=['2-3 observations (thorough 4), output length 2-3 (thorough 4), periods 1800 and 3600 s, first stamp in the hour before the origin, '
+    bounds=['2-3 observations plus one 4-observation shape (thorough: all 4-observation shapes), output length 2-3 (thorough 4), periods 1800 and 3600 s, first stamp in the hour before the origin, '
             'increments <= 5 h, values in [-100,100] and either >= 0, <= -1e-6 or NaN, maxgapsec in [3600, 10 days]'],
     outside=['the pandas side of the wrapper (index units s/ms/us/ns, time zones)', 'rounding (exact reals)', 'display=1 (printing)'],
     assumptions=['hstartsec = first whole hour after the first stamp; nvalh = int(span/period) (dutils.var2h)',
